@@ -242,6 +242,39 @@ def pair_relative(job):
              "tr2": completed, "exit": p2.returncode, "completed": completed, "nplan": -1, "stderr": f"spelled={spelled!r} exit={p2.returncode} " + p2.stderr.decode("utf8", "replace")[-120:]}]
 
 
+def pair_symlink(job):
+    """C07 'archive of another pair', reached through a symbolic link: `bisync <link> mirror` where <link> points at one
+    directory for the first run and at ANOTHER directory for the second (a re-mounted stick, a rotated 'current' link).
+    The pair is the pair of directories, not of spellings: the second run has no base."""
+    k, _ = job
+    d = os.path.join(CFG["dir"], f"lnk{k}")
+    shutil.rmtree(d, ignore_errors=True)
+    s1, s2, M, home = (os.path.join(d, x) for x in ("stick1", "stick2", "mirror", "home"))
+    for x in (s1, s2, M, home):
+        os.makedirs(x)
+    for side in (s1, M):
+        open(os.path.join(side, "f"), "wb").write(CONTENT[1])
+        open(os.path.join(side, "g"), "wb").write(CONTENT[2])
+    open(os.path.join(s2, "f"), "wb").write(CONTENT[3 if k % 2 else 1])       # the other stick: no g, f differs for odd k
+    link = os.path.join(d, "usb") if k < 2 else os.path.join(d, "mnt", "usb")
+    os.makedirs(os.path.dirname(link), exist_ok=True)
+    os.symlink(s1, link)
+    args = [link, M] if k % 2 == 0 else [M, link]
+    subprocess.run([CFG["copia"], "bisync"] + args, env=_env(home), stdout=subprocess.PIPE, stderr=subprocess.PIPE, timeout=60)
+    os.unlink(link)
+    os.symlink(s2, link)
+    a0, b0 = tree(s2), tree(M)
+    p2 = subprocess.run([CFG["copia"], "bisync"] + args, env=_env(home), stdout=subprocess.PIPE, stderr=subprocess.PIPE, timeout=60)
+    a1, b1 = tree(s2), tree(M)
+    names = sorted(set(a0) | set(b0) | set(a1) | set(b1))
+    fam = [[j + 1 for j, m2 in enumerate(names) if m2 == n or m2.startswith(n + ".conflict-")] for n in names]
+    arr = lambda t: [t.get(n, 0) for n in names]
+    completed = p2.returncode == 0 or (p2.returncode == 1 and b"had conflicts" in p2.stderr)
+    return [{"seed": f"pair-symlink-{k}", "step": 0, "names": names, "fam": fam, "A": arr(a0), "B": arr(b0), "E": [0] * len(names), "tr": False, "stg": False,
+             "last": [0] * len(names), "A2": arr(a1), "B2": arr(b1), "altA2": arr(a1), "altB2": arr(b1), "E2": arr(a1) if completed else [0] * len(names),
+             "tr2": completed, "exit": p2.returncode, "completed": completed, "nplan": -1, "stderr": f"exit={p2.returncode} banner={b'SAFE no-base' in p2.stderr}"}]
+
+
 def tie_order(job):
     """C06 'swapping which directory is named first does not change which bytes end up at which path', at its hardest:
     the two versions have the SAME BLAKE3 and differ in entry type only - a regular file holding the text T on one side,
@@ -316,6 +349,8 @@ def run_all(copia, root, jobs, nproc=12, pairs=False, link_target=None):
             for r in pool.imap_unordered(pair_identity, [(k, None) for k in range(len(PAIR_NAMES))]):
                 out.extend(r)
             for r in pool.imap_unordered(pair_relative, [(k, None) for k in range(4)]):
+                out.extend(r)
+            for r in pool.imap_unordered(pair_symlink, [(k, None) for k in range(4)]):
                 out.extend(r)
             if link_target:
                 for r in pool.imap_unordered(tie_order, [(k, None) for k in range(4)]):
